@@ -292,7 +292,7 @@ package keeper
 //@ func (HostValidatorStore) UpdateValidators
 //@   ensures old(g.lastHeight) == None && height <= 0 ==> err == nil && g.validators == old(g.validators) && g.lastHeight == old(g.lastHeight)               // C15: non_positive_height_ignored
 //@   ensures old(g.lastHeight) != None && val(old(g.lastHeight)) >= height ==> err == nil && g.validators == old(g.validators) && g.lastHeight == old(g.lastHeight)   // C15: only_replaced_by_higher_height
-//@   ensures err == nil && height > 0 && (old(g.lastHeight) == None || val(old(g.lastHeight)) < height) ==> g.lastHeight == Some(height)                                    // C15: records_the_new_height
+//@   ensures err == nil && ((old(g.lastHeight) == None && height > 0) || (old(g.lastHeight) != None && val(old(g.lastHeight)) < height)) ==> g.lastHeight == Some(height)                                    // C15: records_the_new_height
 //@   assigns validators, lastHeight
 
 //@ func (Keeper) UpdateHostValidatorSet
